@@ -28,3 +28,4 @@ void randomx_verif_yield(int site);
 #define RANDOMX_VERIF_SITE_CACHE_ARGON     4  /* after the Argon2 fill in initCache */
 #define RANDOMX_VERIF_SITE_CACHE_SSH       5  /* per SuperscalarHash program in initCache */
 #define RANDOMX_VERIF_SITE_INTERP_ITER     6  /* per loop iteration of InterpretedVm::execute */
+#define RANDOMX_VERIF_SITE_ARGON_BLOCK     7  /* after each block of the Argon2 memory fill */
